@@ -184,10 +184,13 @@ Print Assumptions C15_unreadable_cert_never_verifies.
    the module-level signer object and stores the caller's key on it (true today) or a fresh object per call.
    The statements about the shared-object behaviour carry that fact as a hypothesis so that this file keeps
    compiling after a repair; C15_schedule_status says which situation holds NOW. *)
+(* pre and mid range over ALL operations of the alphabet, by any entity (e itself included): ordinary get_signer,
+   get_signer WITH a sigkey (a foreign key), sign, verify with or without a sigkey.  The handle under test is the one
+   an ORDINARY get_signer call returned to e. *)
 Definition own_key_full (T : tables) : Prop :=
   forall st pre e a h mid typ m rs sigalg q,
-    snd (step T (exec T st pre) (OGet e a)) = OutHandle (Some h) ->
-    snd (step T (exec T st (pre ++ OGet e a :: mid)) (OSign e typ m rs sigalg (Some h))) = OutSigned (Ok q) ->
+    snd (step T (exec T st pre) (OGet e a None)) = OutHandle (Some h) ->
+    snd (step T (exec T st (pre ++ OGet e a None :: mid)) (OSign e typ m rs sigalg (Some h))) = OutSigned (Ok q) ->
     used_key (Ok q) = e.
 
 (* Exact behaviour of the unchanged code, for EVERY trace (any entities, any length, any interleaving;
@@ -212,8 +215,8 @@ Definition keyB : keyid := 2.
 Theorem C15_own_key_any_schedule_refuted :
   t_shared actual = true ->
   exists st pre e a h mid typ m rs sigalg q,
-    snd (step actual (exec actual st pre) (OGet e a)) = OutHandle (Some h) /\
-    snd (step actual (exec actual st (pre ++ OGet e a :: mid)) (OSign e typ m rs sigalg (Some h))) = OutSigned (Ok q) /\
+    snd (step actual (exec actual st pre) (OGet e a None)) = OutHandle (Some h) /\
+    snd (step actual (exec actual st (pre ++ OGet e a None :: mid)) (OSign e typ m rs sigalg (Some h))) = OutSigned (Ok q) /\
     used_key (Ok q) <> e /\
     (* and that URL verifies under the OTHER entity's certificate, not under the signer's *)
     verifies (verify_redirect_signature actual (init_shared actual) None q (Some keyB) None) = true /\
@@ -221,7 +224,7 @@ Theorem C15_own_key_any_schedule_refuted :
 Proof.
   intros SH.
   first [ discriminate SH
-        | exists (init_shared actual), [], (Some keyA), ALG256, (ALG256, Some keyA), [OGet (Some keyB) ALG256],
+        | exists (init_shared actual), [], (Some keyA), ALG256, (ALG256, Some keyA), [OGet (Some keyB) ALG256 None],
                  K_REQ, (s2l "eJwrSS0uAQAEXQHB"), (s2l "rs"), ALG256;
           eexists; split; [vm_compute; reflexivity|]; split; [vm_compute; reflexivity|];
           split; [vm_compute; discriminate|]; split; vm_compute; reflexivity ].
@@ -232,7 +235,7 @@ Theorem C15_own_key_verify_between_refuted :
   t_shared actual = true ->
   exists q0 q,
     snd (step actual (exec actual (init_shared actual)
-           [OGet (Some keyA) ALG256; OVerify (Some keyB) q0 (Some keyA) None])
+           [OGet (Some keyA) ALG256 None; OVerify (Some keyB) q0 (Some keyA) None])
            (OSign (Some keyA) K_REQ (s2l "eJwrSS0uAQAEXQHB") [] ALG256 (Some (ALG256, Some keyA)))) = OutSigned (Ok q) /\
     used_key (Ok q) = Some keyB.
 Proof.
@@ -249,12 +252,12 @@ Theorem C15_own_key_partial :
   t_shared actual = true ->
   forall st pre e a h mid typ m rs sigalg q,
     Forall (keeps a e) mid ->
-    snd (step actual (exec actual st pre) (OGet e a)) = OutHandle (Some h) ->
-    snd (step actual (exec actual st (pre ++ OGet e a :: mid)) (OSign e typ m rs sigalg (Some h))) = OutSigned (Ok q) ->
+    snd (step actual (exec actual st pre) (OGet e a None)) = OutHandle (Some h) ->
+    snd (step actual (exec actual st (pre ++ OGet e a None :: mid)) (OSign e typ m rs sigalg (Some h))) = OutSigned (Ok q) ->
     used_key (Ok q) = e.
 Proof.
   intros SH st pre e a h mid typ m rs sigalg q Hmid Hh H. apply get_handle_shape in Hh. subst h.
-  exact (own_key_partial actual st pre e a e mid typ m rs sigalg q SH Hmid H).
+  exact (own_key_partial actual st pre e a (or_key None e) mid typ m rs sigalg q SH Hmid H).
 Qed.
 Print Assumptions C15_own_key_partial.
 
@@ -285,10 +288,67 @@ Theorem C15_own_cert_verifies : own_cert_full actual.
 Proof. apply C15_own_cert_verifies_if_same_encoder; [exact C15_tables | vm_compute; reflexivity]. Qed.
 Print Assumptions C15_own_cert_verifies.
 
+(* ---- (2') histories that contain sigkey operations, also as the FIRST use of an algorithm by an entity ---- *)
+(* a handle asked for with a sigkey signs with that sigkey, one asked for without signs with the caller's key: in any
+   later state, whoever (e' - the handle may be passed on) signs with it *)
+Theorem C15_handle_key_is_the_requested_one :
+  forall st0 e a sk h, snd (step actual st0 (OGet e a sk)) = OutHandle (Some h) ->
+  forall st e' typ m rs sigalg q,
+    snd (step actual st (OSign e' typ m rs sigalg (Some h))) = OutSigned (Ok q) -> used_key (Ok q) = or_key sk e.
+Proof. intros st0 e a sk h. apply handle_key_fresh. vm_compute. reflexivity. Qed.
+Print Assumptions C15_handle_key_is_the_requested_one.
+
+(* positions in ONE trace over the whole alphabet: whatever else the trace contains (before, between, after; sigkey
+   calls of the same entity on the same algorithm included), a Sign step made with the handle that an earlier ordinary
+   get_signer step of the trace returned to e carries e's key *)
+Theorem C15_every_sign_in_trace_uses_own_key :
+  forall tr st i j e a h typ m rs sigalg q,
+    nth_error tr i = Some (OGet e a None) -> nth_error (run actual st tr) i = Some (OutHandle (Some h)) ->
+    nth_error tr j = Some (OSign e typ m rs sigalg (Some h)) -> nth_error (run actual st tr) j = Some (OutSigned (Ok q)) ->
+    used_key (Ok q) = e.
+Proof. intros tr st i j e a h typ m rs sigalg q. apply trace_signs_own. vm_compute. reflexivity. Qed.
+Print Assumptions C15_every_sign_in_trace_uses_own_key.
+
+(* apply_binding(sign=True, sigalg=alg) after ANY history (any trace over the whole alphabet from any state): what it
+   signs, it signs with the caller's own key.  Holds for both kinds of tables (get_signer and sign are back to back). *)
+Theorem C15_apply_binding_own_key_after_any_history :
+  forall T tr st e resp m rs alg q,
+    snd (apply_binding_redirect T (exec T st tr) e resp m rs true (Some alg)) = Ok q -> q_sig q <> None ->
+    used_key (Ok q) = e.
+Proof. intros T tr st. apply apply_binding_own_key. Qed.
+Print Assumptions C15_apply_binding_own_key_after_any_history.
+
+(* the observable the schedule unit compares on every run: in EVERY script (sequence of get_signer / get_signer with a
+   sigkey / sign / sign with the sigkey handle / apply_binding / verify with or without a sigkey, by any entities) every
+   ordinary Sign and apply_binding step shows the acting entity's own key, nothing signed, or an exception *)
+Theorem C15_script_signs_with_own_key :
+  forall s, Forall2 own_step s (run_script actual (init_shared actual) [] [] s).
+Proof. intros s. apply script_own; [vm_compute; reflexivity | intros e a h H; discriminate H]. Qed.
+Print Assumptions C15_script_signs_with_own_key.
+
+(* no operation of any entity ever writes the process-wide table: there is no shared mutable signing state, so the
+   outcome of a step cannot depend on how finely the steps of concurrent entities are interleaved *)
+Theorem C15_no_shared_write : forall tr st, exec actual st tr = st.
+Proof. intros tr st. apply exec_fresh. vm_compute. reflexivity. Qed.
+Print Assumptions C15_no_shared_write.
+
+(* had get_signer stored the key on the shared object, a sigkey call by ANOTHER entity between get and sign would
+   have made A sign with the foreign key K (here K = key 3, which is neither A's nor B's) *)
+Theorem C15_own_key_sigkey_between_refuted :
+  t_shared actual = true ->
+  exists q,
+    snd (step actual (exec actual (init_shared actual) [OGet (Some keyA) ALG256 None; OGet (Some keyB) ALG256 (Some 3)])
+           (OSign (Some keyA) K_REQ (s2l "eJwrSS0uAQAEXQHB") [] ALG256 (Some (ALG256, Some keyA)))) = OutSigned (Ok q) /\
+    used_key (Ok q) = Some 3.
+Proof.
+  intros SH. first [ discriminate SH | eexists; split; vm_compute; reflexivity ].
+Qed.
+Print Assumptions C15_own_key_sigkey_between_refuted.
+
 (* ---- non-vacuity: a signed request with RelayState, made through apply_binding by A after B used the
    table, verifies under A, not under B; mutations fail; the hypotheses above are satisfiable ---- *)
 Example C15_example :
-  let st0 := exec actual (init_shared actual) [OGet (Some keyB) ALG256] in
+  let st0 := exec actual (init_shared actual) [OGet (Some keyB) ALG256 None; OGet (Some keyA) ALG256 (Some keyB)] in
   let '(st1, r) := apply_binding_redirect actual st0 (Some keyA) false (s2l "eJwrSS0uAQAEXQHB") (s2l "a b&c") true (Some ALG256) in
   match r with
   | Ok q =>
@@ -298,7 +358,7 @@ Example C15_example :
       verifies (verify_redirect_signature actual st1 (Some keyB)
                   {| q_params := [(K_REQ, s2l "eJwrSS0uAQAEXQHB"); (K_ALG, ALG256)]; q_sig := q_sig q |} (Some keyA) None) = false /\
       supported ALG256 /\ msg_typ K_REQ /\
-      Forall (keeps ALG256 (Some keyA)) [OGet (Some keyB) (s2l "http://www.w3.org/2000/09/xmldsig#rsa-sha1"); OGet (Some keyA) ALG256]
+      Forall (keeps ALG256 (Some keyA)) [OGet (Some keyB) (s2l "http://www.w3.org/2000/09/xmldsig#rsa-sha1") None; OGet (Some keyA) ALG256 None; OGet (Some keyB) ALG256 (Some keyA)]
   | Err _ => False
   end.
 Proof.
